@@ -21,7 +21,7 @@ claimed = {
    note='Trusts the brute-force model; datasets beyond the small scope are not covered.'),
  'C03': dict(level='model_checking', engine=E2, ref='§4 C03',
    technique='explicit-state BFS over query histories of a real cached index (state = cached (key, content checksum) list + preloaded checksum) plus exhaustive ordered query pairs on a fresh cache',
-   text='For each of 10 configurations {on-demand, preloaded} x {no cache, LRU 0, ~1 entry, ~3 entries, ample} all reachable cache states for a 17-query alphabet are visited (fixpoint) and every transition compared with the uncached answer on a dataset where the count identifies the boolean function; all ordered pairs of a tree space (7 056 quick / 3.6 M thorough) are run on a fresh ample cache; a 2500-value index is compared value by value on demand vs preloaded vs preloaded+cached; leaves with coinciding name+value concatenations are run pairwise on a cached index; expression objects are executed, edited in place and executed again.',
+   text='For each of 10 configurations {on-demand, preloaded} x {no cache, LRU 0, ~1 entry, ~3 entries, ample} all reachable cache states for a 17-query alphabet are visited (fixpoint) and every transition compared with the uncached answer on a dataset where the count identifies the boolean function; all ordered pairs of a tree space (7 056 quick / 3.6 M thorough) are run on a fresh ample cache; a 2500-value index is compared value by value on demand vs preloaded vs preloaded+cached; leaves with coinciding name+value concatenations are run pairwise on a cached index; expression objects are executed, edited in place and executed again. An additional capacity that holds exactly one leaf bitmap and nothing bigger (12 configurations).',
    note='State merging assumes the future depends only on cached (key, content) in recency order and preloaded contents; up to 64-bit key collisions.'),
  'C04': dict(level='model_checking', engine=E3, ref='§4 C04',
    technique='stateless schedule enumeration (preemption-bounded DFS) of real goroutines under a controlled cooperative scheduler with the Go race detector live in every schedule; linearizability check of LRU histories',
@@ -37,11 +37,11 @@ claimed = {
    note='Trusts roaring GetSizeInBytes; state merging on (recency list with accounted sizes, byte counter, model state); fits/comfortably read with 128 bytes slack per entry.'),
  'C08': dict(level='model_checking', engine=E2, ref='§4 C08',
    technique='explicit-state BFS to fixpoint over execution histories of 16 Query values on 2 indexes (state = generic dump of the private fields of the Query values) plus unmerged enumeration of all sequences to depth 3/5',
-   text='All histories of re-using 16 Query values (ungrouped, grouped, repeated and unknown columns, a column known to one index only in every operand position, values absent from one index) on two indexes, one of them cached: every execution equals a freshly constructed equal query and the visible fields stay unchanged; the caller also replaces or edits GroupBy and the expression between executions, and every Result obtained earlier must still be what it was after each later execution.',
+   text='All histories of re-using 16 Query values (ungrouped, grouped, repeated and unknown columns, a column known to one index only in every operand position, values absent from one index) on two indexes, one of them cached: every execution equals a freshly constructed equal query and the visible fields stay unchanged; the caller also replaces or edits GroupBy and the expression between executions, and every Result obtained earlier must still be what it was after each later execution. The group-by lists of all Query values are slices of one shared array with spare capacity reaching into the next list (drill-down style dims[:k]); the array is compared after every step.',
    note='State merging on the non-Expr fields of the Query values, cross-checked by the unmerged enumeration.'),
  'C17': dict(level='model_checking', engine=E2 + ' + ' + E3, ref='§4 C17',
    technique='explicit-state BFS over open/query/close histories through real database/sql (state = pool stats + driver cache dump) and preemption-bounded schedule enumeration of concurrent first use at the driver.Driver seam with file-lock waits as scheduling points',
-   text='Sequential: all histories to depth 6/8 over 2 files (one addressed through a non-canonical path) x 2 option strings, <=3 live handles, pool sizes {unlimited,1}, states merged on a generic dump of the complete private state of the driver, plus every history to depth 5 over a reduced alphabet without any merging; any lock (file lock, updog mutex, bbolt lock) that cannot be taken in a single-threaded history is a hang. Concurrent: 2-3 threads Open/Query/Close on one file (same query, different bound arguments, with a shared LRU cache) under the controlled scheduler with the race detector; deadlock = a thread waiting for a lock nobody will release.',
+   text='Sequential: all histories to depth 6/8 over 2 files (one addressed through a non-canonical path) x 2 option strings, <=3 live handles, pool sizes {unlimited,1}, states merged on a generic dump of the complete private state of the driver, plus every history to depth 5 over a reduced alphabet without any merging; any lock (file lock, updog mutex, bbolt lock) that cannot be taken in a single-threaded history is a hang. Concurrent: 2-3 threads Open/Query/Close on one file (same query, different bound arguments, with a shared LRU cache) under the controlled scheduler with the race detector; deadlock = a thread waiting for a lock nobody will release. Since round 8: file 0 is also opened under a second spelling of its path (<dir>/./<name>) while it is live (merged BFS: without options; unmerged search: without and with options), and two concurrent scenarios in which the file is a bbolt file without index content (every concurrent Open must fail cleanly; a valid index put there afterwards must open and answer).',
    note='GC disabled during replays (a finalizer could release a leaked lock); one residual class (same file under different option strings) is a recorded known finding.'),
  'C18': dict(level='model_checking', engine=E3, ref='§4 C18',
    technique='stateless enumeration of ALL interleavings (unbounded preemptions) of k goroutines x r AddRow calls on the real writers under the controlled scheduler with the Go race detector live; flushed index compared with the sequential model',
@@ -53,15 +53,15 @@ claimed = {
    note='Process death only (no loss of un-synced page cache); all file content changes go through the hooked bbolt write function; bbolt transaction atomicity is exercised, not assumed; one torn-init-write class is a recorded known finding of the bbolt dependency.'),
  'C09': dict(level='exploration', engine=E1, ref='§4 C09',
    technique='bounded-exhaustive enumeration of token strings (<=5/7 tokens), byte strings (<=4/5 symbols), generated sentences and finite families against an independent recogniser of the documented grammar, goroutine accounting under GOMAXPROCS=1',
-   text='Every string of the stated spaces is parsed by the real parser on its own goroutine: termination, accept/reject and the prescribed tree are compared with an independent reference recogniser, and the goroutine count must return to the baseline after every call.',
+   text='Every string of the stated spaces is parsed by the real parser on its own goroutine: termination, accept/reject and the prescribed tree are compared with an independent reference recogniser, and the goroutine count must return to the baseline after every call. Plus runs of 2..4097 bytes/runes of one class (continuation bytes, lead bytes, multi-byte runes, blanks, letters, $, quotes) at 8 positions of a sentence.',
    note='Trusts the reference recogniser (written from the EBNF with end-of-input required); inputs beyond the bounds are not covered; leaks/hangs decided by scheduler state, not wall-clock.'),
  'C10': dict(level='exploration', engine=E1, ref='§4 C10',
    technique='bounded-exhaustive enumeration of query trees (depth<=2 arity<=3, depth<=3 arity<=2), value strings and group-by lists through format -> parse -> normalise -> compare',
-   text='Every tree of the stated spaces (single-operand and nested same-operator nodes included), every value string up to length 4/5 over a 6-symbol alphabet and every group-by list of length 0..3 is formatted, parsed back, compared after normalisation, and the re-formatted text checked to be a fixpoint.',
+   text='Every tree of the stated spaces (single-operand and nested same-operator nodes included), every value string up to length 4/5 over a 6-symbol alphabet and every group-by list of length 0..3 is formatted, parsed back, compared after normalisation, and the re-formatted text checked to be a fixpoint. Ahead of every case one tree outside the domain (node without value / nil operand / operator without operands below the root) is formatted and one rejected text is parsed (chosen by a hash of the case): earlier calls must not matter.',
    note='Precondition of the property: valid identifiers, >=1 operand per AND/OR.'),
  'C11': dict(level='exploration', engine=E1 + ' + ' + E2, ref='§4 C11',
    technique='bounded-exhaustive enumeration of query texts x argument lists x execution sequences through ReplacePlaceholders and through database/sql (direct Query and Prepare paths)',
-   text='All trees (depth 1/2) over leaves with repeated, out-of-order and gapped placeholders x all argument lists of length 0..4 over 5 values: binding equals a reference substitution and leaves the template unchanged; through database/sql every execution (sequences of length 2/3 on one prepared statement) returns the rows of the literal one-shot query, too few arguments give an error.',
+   text='All trees (depth 1/2) over leaves with repeated, out-of-order and gapped placeholders x all argument lists of length 0..4 over 5 values: binding equals a reference substitution and leaves the template unchanged; through database/sql every execution (sequences of length 2/3 on one prepared statement) returns the rows of the literal one-shot query, too few arguments give an error. Plus, on a grpc:// handle served by an in-process query service over the library, every sequence of up to 3 executions of one prepared statement (3 texts x 3 argument lists) in which each execution is either answered or failed by the service.',
    note='The literal one-shot query through the same driver is the oracle (as the property states); database/sql itself is trusted.'),
  'C12': dict(level='exploration', engine=E1, ref='§4 C12',
    technique='bounded-exhaustive enumeration of datasets x query texts x DSN option combinations, database/sql rows compared with Index.Execute on a copy of the same file',
